@@ -39,6 +39,11 @@ RULE = ("qubit and qutrit maps given by Choi matrices built from exact data by t
         "invariance, homogeneity, channel = 1, CP = ||Phi*(1)||, dual map, fidelity symmetric/=1/<= Choi fidelity/dimension 5, product states). "
         "non-trivial = certified interval narrower than 1e-4 and the optimum >= 1e-2 away from the trivial values (0 and 2 for the diamond "
         "distance of channels, 0 and 1 for the channel fidelity), or a relation evaluated on such an instance; distinct = hash of the instance and call form; "
+        "stream maps (diamond_distance on pairs of linear maps that are not both channels): c*Phi_U against c*Phi_V (c in {3, 5/2, 2, 3/2}; closed form |c| 2 sqrt(1-delta^2)), c1*Phi_1 against c2*Phi_2 for "
+        "channels of every kind and c in {3, 5/2, 2, 3/2, 1}, pairs of random Hermitian Choi matrices (entries (a+bi)/2, |a|,|b| <= 4, Hermitian part), a completely positive non-trace-preserving map "
+        "(Kraus entries (a+bi)/2) against a channel in both orders, d = 2, 3, with the difference indefinite (both extreme eigenvalues 0.05 away from 0); corpus 3*id vs 3*X (6), 2*id vs X (3), 3*id vs 3*shift on the "
+        "qutrit (6); demanded: the value inside the certified interval of cbNorm(J1 - J2), inside [||J1 - J2||_1/d, ||J1 - J2||_1], symmetric, zero on equal arguments, equal to completely_bounded_trace_norm(J1 - J2); "
+        "non-trivial = certified optimum >= 2.01 (further apart than any two channels); "
         "presentation: every call of a toqito function receives the same values in a freshly drawn presentation per array argument (C / Fortran / strided memory "
         "layout; real-valued Choi matrices as float64, integer-valued ones also as int64; real/complex pairs in both argument orders); the arrays handed over must "
         "be untouched afterwards; the main diamond_distance / channel_fidelity / completely_bounded_trace_norm call is repeated on the same objects for one qubit task in "
@@ -435,6 +440,39 @@ def gen_cb_task(rng, i, quick):
     return t
 
 
+def _indefinite(J, margin=0.05):
+    w = np.linalg.eigvalsh((J + J.conj().T) / 2)
+    return bool(w[0] <= -margin and w[-1] >= margin)
+
+
+def gen_maps_task(rng, i):
+    """pairs of Hermiticity-preserving maps that are NOT both channels (scaled channels, completely positive maps that do not preserve the trace, general Hermitian
+    Choi matrices) and lie further apart than 2 in most draws; the difference is indefinite (the call does not go through the completely-positive branch)"""
+    d = int(rng.choice([2, 2, 3]))
+    sub = ["scaled-unitaries", "scaled", "herm", "cp-vs-channel"][i % 4]
+    t = {"d": d, "kind": "maps", "sub": sub, "id": 5000 + i}
+    while True:
+        if sub == "scaled-unitaries":
+            c = float(rng.choice([3.0, 2.5, 1.5, 2.0]))
+            U, V = qgen.cayley_unitary(rng, d, True), qgen.cayley_unitary(rng, d, True)
+            t["J1"], t["J2"] = c * choi_of([U]), c * choi_of([V])
+            t["c"], t["U"], t["V"] = c, U, V
+        elif sub == "scaled":
+            c1, c2 = (float(x) for x in rng.choice([3.0, 2.0, 1.0, 1.5, 2.5], size=2))
+            kinds = [str(rng.choice(["unitary", "mixture", "stinespring"])) for _ in range(2)]
+            t["J1"], t["J2"] = c1 * choi_of(gen_channel(rng, d, kinds[0])), c2 * choi_of(gen_channel(rng, d, kinds[1]))
+            t["scales"], t["kinds"] = [c1, c2], kinds
+        elif sub == "herm":
+            t["J1"], t["J2"] = 2 * rand_herm(rng, d * d), 2 * rand_herm(rng, d * d)
+        else:
+            ks = [(rng.integers(-2, 3, size=(d, d)) + 1j * rng.integers(-2, 3, size=(d, d))) / 2.0 for _ in range(int(rng.integers(1, 4)))]
+            t["J1"], t["J2"] = choi_of(ks), choi_of(gen_channel(rng, d, str(rng.choice(["unitary", "mixture", "stinespring"]))))
+            if i % 8 >= 4:
+                t["J1"], t["J2"] = t["J2"], t["J1"]
+        if _indefinite(t["J1"] - t["J2"]):
+            return t
+
+
 def gen_cf_task(rng, i, quick, d=None):
     d = d or 2
     k1 = str(rng.choice(["unitary", "mixture", "stinespring", "stinespring"]))
@@ -589,6 +627,67 @@ def work_cb(task, res: Result):
                 res.violation(f"diamond_distance changes under composition with the same unitaries: {v:.8f} vs {v4:.8f}", {"function": "diamond_distance", "args": dict(desc, V=Vu, W=Wu), "values": [v, v4], "certified": [lo, hi], "theorem": "diamond_unitary_invariant"})
         elif st4 == "raise":
             res.violation(f"diamond_distance raises {v4} on rotated channels", {"function": "diamond_distance", "args": dict(desc, V=Vu, W=Wu), "exception": v4})
+        return
+
+    if kind == "maps":
+        # diamond_distance on pairs of linear maps that are not both channels: the value is the cb trace norm of the difference (no bound 2 there)
+        J1, J2, sub = task["J1"], task["J2"], task["sub"]
+        Jd = J1 - J2
+        desc = dict(base, sub=sub, J1=J1, J2=J2)
+        for k_ in ("c", "scales", "kinds"):
+            if k_ in task:
+                desc[k_] = task[k_]
+        lo, hi = _cb_interval(drv, res, Jd, d, d, kind)
+        st, v = P.call("main", diamond_distance, J1, J2, again=(d == 2), tol=2 * TAU_CB)
+        desc["presentation"] = P.last
+        res.case(desc, lo is not None and lo >= 2 + 1e-2, f"diamond/maps/{sub}/d{d}/{st}")
+        if st == "numfail":
+            res.count("solver-numerical-failure")
+            return
+        if st == "raise":
+            res.violation(f"diamond_distance raises {v} on a pair of Hermiticity-preserving maps", {"function": "diamond_distance", "args": desc, "exception": v})
+            return
+        if _check_interval(res, "diamond_distance", desc, v, lo, hi, TAU_CB, "checkCbPrimal_sound / checkCbDual_sound / cb_bracket (the diamond distance of two linear maps is the cb trace norm of the difference)") is False:
+            return
+        tn = trace_norm_h(Jd)
+        res.count("relation/maps-choi-bounds")
+        if not (tn / d - TAU_CB - CLOSED * max(1.0, tn) <= v <= tn + TAU_CB + CLOSED * max(1.0, tn)):
+            res.violation(f"diamond_distance of two Hermiticity-preserving maps = {v:.8f} outside the Choi bounds [{tn / d:.8f}, {tn:.8f}]",
+                          {"function": "diamond_distance", "args": desc, "impl": v, "bounds": [tn / d, tn], "theorem": "diamond_choi_bounds"})
+            return
+        if lo is not None and not (tn / d - CLOSED * max(1.0, tn) <= hi and lo <= tn + CLOSED * max(1.0, tn)):
+            res.violation("certified interval violates the Choi trace-norm bounds (harness error)", {"function": "choi_bounds", "args": desc, "certified": [lo, hi], "bounds": [tn / d, tn]})
+        st2, v2 = P.call("swap", diamond_distance, J2, J1)
+        if st2 == "ok":
+            res.count("relation/maps-symmetry")
+            if abs(v - v2) > 2 * TAU_CB:
+                res.violation(f"diamond_distance not symmetric on a pair of maps: {v:.8f} vs {v2:.8f}", {"function": "diamond_distance", "args": desc, "values": [v, v2], "certified": [lo, hi], "theorem": "diamond_symm"})
+        elif st2 == "raise":
+            res.violation(f"diamond_distance raises {v2} on the exchanged pair", {"function": "diamond_distance", "args": dict(desc, J1=J2, J2=J1), "exception": v2})
+        st3, v3 = P.call("self", diamond_distance, J1, J1.copy())
+        if st3 == "ok":
+            res.count("relation/maps-self-zero")
+            if abs(v3) > TAU_CB:
+                res.violation(f"diamond_distance(J, J) = {v3:.8f} for a map that is no channel, expected 0", {"function": "diamond_distance", "args": dict(base, J1=J1, J2=J1), "impl": v3, "theorem": "diamond_self_zero"})
+        elif st3 == "raise":
+            res.violation(f"diamond_distance(J, J) raises {v3}", {"function": "diamond_distance", "args": dict(base, J1=J1, J2=J1), "exception": v3})
+        st4, v4 = P.call("cb-of-difference", completely_bounded_trace_norm, Jd)
+        if st4 == "ok":
+            res.count("relation/maps-definition")
+            if abs(v - v4) > 2 * TAU_CB:
+                res.violation(f"diamond_distance(J1, J2) = {v:.8f} differs from completely_bounded_trace_norm(J1 - J2) = {v4:.8f}",
+                              {"function": "diamond_distance", "args": desc, "values": [v, v4], "certified": [lo, hi], "theorem": "(definition) / cb_bracket"})
+        if sub == "scaled-unitaries":
+            # |c| * 2 sqrt(1 - delta^2) (cb_homogeneous and the two-unitary closed form)
+            c, U, V = task["c"], task["U"], task["V"]
+            delta = hull_distance(np.linalg.eigvals(U.conj().T @ V))
+            cf = abs(c) * 2 * np.sqrt(max(0.0, 1 - delta ** 2))
+            res.count("closed-form/scaled-two-unitaries")
+            if abs(v - cf) > (1 + abs(c)) * (TAU_CB + CLOSED):
+                res.violation(f"diamond_distance of c*Phi_U, c*Phi_V (c={c}) = {v:.8f}, closed form |c| 2 sqrt(1-delta^2) = {cf:.8f}",
+                              {"function": "diamond_distance", "args": desc, "impl": v, "closed_form": cf, "theorem": "cb_homogeneous / diamond_two_unitaries_closed_form"})
+            if lo is not None and not (lo - abs(c) * CLOSED <= cf <= hi + abs(c) * CLOSED):
+                res.violation("certified interval disagrees with the scaled two-unitary closed form (harness or cited closed form wrong)", {"function": "two_unitaries", "args": desc, "certified": [lo, hi], "closed_form": cf})
         return
 
     if kind == "herm":
@@ -1883,6 +1982,18 @@ def run(ctx, model_ok=True):
             t["pres"] = int(prs.integers(1, 2 ** 31))
         return tasks
     run_pool(ctx, work_cb, seeded(cb_tasks))
+    # diamond_distance on pairs of maps that are not both channels (own generator and presentation stream: the streams above and below are as before)
+    mrs = rng.spawn(1)[0]
+    Sk = [np.roll(np.eye(3), 1, axis=0).astype(complex)]
+    maps_tasks = [{"d": 2, "kind": "maps", "sub": "scaled-unitaries", "id": -30, "J1": 3 * choi_of(Ik), "J2": 3 * choi_of(Xk), "c": 3.0, "U": Ik[0], "V": Xk[0]},
+                  {"d": 2, "kind": "maps", "sub": "scaled", "id": -31, "J1": 2 * choi_of(Ik), "J2": choi_of(Xk), "scales": [2.0, 1.0], "kinds": ["unitary", "unitary"]},
+                  {"d": 3, "kind": "maps", "sub": "scaled-unitaries", "id": -32, "J1": 3 * choi_of([np.eye(3, dtype=complex)]), "J2": 3 * choi_of(Sk), "c": 3.0,
+                   "U": np.eye(3, dtype=complex), "V": Sk[0]}]
+    for i in range(12 if quick else 96):
+        maps_tasks.append(gen_maps_task(mrs, i))
+    for t in maps_tasks:
+        t["pres"] = int(mrs.integers(1, 2 ** 31))
+    run_pool(ctx, work_cb, maps_tasks)
     rect = []
     for i in range(6 if quick else 40):
         dX, dY = [(2, 3), (3, 2), (2, 4), (1, 3), (3, 1), (2, 1)][i % 6]
